@@ -574,6 +574,51 @@ def validate (P : Params) (st : State) (tx : Tx) (fork : Bool) : Bool × State :
   | none => (false, st)
   | some (st1, us) => (validateType P st1 tx us, st1)
 
+/-! ### kernel/self.go: validateSnapshotTransaction -/
+
+/-- `IsSnapshotBatchable` -/
+def batchable (tx : Tx) : Bool :=
+  match txType tx with
+  | .script | .deposit | .withdrawalSubmit | .withdrawalClaim => true
+  | _ => false
+
+/-- `validateKernelSnapshot` for the transaction classes of this model: several transactions in one
+    snapshot must all be batchable; a single script / deposit / withdrawal transaction has no extra rule.
+    Mint, node and custodian transactions (a single one per snapshot) have kernel rules outside this
+    model: `false`, never generated. -/
+def kernelSnapshotRule (multi : Bool) (tx : Tx) : Bool := batchable tx
+
+/-- one iteration of the loop of `validateSnapshotTransaction`. `some .err` = the snapshot is refused;
+    the state keeps what the iteration already wrote (ghost locks, input locks, the persisted body).
+    * a body found in the persistent store is trusted: no `Validate`, no locking;
+    * a cached body goes through `Validate`, the batch rule, `LockInputs`, `WriteTransaction`. -/
+def kernelValidateTx (P : Params) (st : State) (snap : Id) (multi finalized : Bool) (tx : Tx) :
+    Option Fail × State :=
+  match aget st.txs tx.id with
+  | some _ =>
+    if !finalized && (match aget st.fin tx.id with | some s => s ≠ snap | none => false) then (some .err, st)
+    else if kernelSnapshotRule multi tx then (none, st) else (some .err, st)
+  | none =>
+    match validate P st tx finalized with
+    | (false, st1) => (some .err, st1)
+    | (true, st1) =>
+      if !kernelSnapshotRule multi tx then (some .err, st1) else
+      match LockInputs st1 tx finalized with
+      | (some .panic, st2) => (some .panic, st2)
+      | (some .err, st2) => (some .err, st2)
+      | (none, st2) =>
+        match WriteTransaction st2 tx with
+        | (none, st3) => (none, st3)
+        | (some e, st3) => (some e, st3)
+
+/-- `validateSnapshotTransaction(s, finalized)` with every member available in the cache store -/
+def kernelValidate (P : Params) (snap : Id) (multi finalized : Bool) : List Tx → State → Option Fail × State
+  | [], st => (none, st)
+  | tx :: r, st =>
+    match kernelValidateTx P st snap multi finalized tx with
+    | (none, st1) => kernelValidate P snap multi finalized r st1
+    | (some e, st1) => (some e, st1)
+
 /-! ### what C17 observes -/
 
 /-- is this UTXO entry consumed by a finalized transaction? -/
